@@ -14,7 +14,7 @@ ops:
      an "unresolvable" error carries in addition the declarative specification (LinkLocSpec.lean):
        "spec": {"rounds":K+1,"file","line","col","asked":[id…]} | null
   {"op":"posdict","tree":{"id","s","e","kids":[…]}}        → {"dict":[[s,e,id]…]}
-  {"op":"tools","files":…,"ans":…,"trees":[tree…]}         → the `error_loc` answer plus "dicts":[[[s,e,id]…]…]
+  {"op":"tools","files":…,"ans":…,"trees":[tree…]}         → the `error_loc` answer plus "dicts":[[[s,e,id]…]…], "geo":[bool…] (`PosDict.geo` of every tree)
 -/
 open Lean Wire
 
@@ -127,7 +127,8 @@ def handle (j : Json) : Json :=
     match (getArr? j "files").bind (fun a => a.toList.mapM parseFile), (getArr? j "ans").bind parseAns,
           (getArr? j "trees").bind (fun a => a.toList.mapM parseTree) with
     | some files, some tbl, some trees =>
-      Json.mkObj (runJson files tbl ++ [("dicts", Json.arr (trees.map dictJson).toArray)])
+      Json.mkObj (runJson files tbl ++ [("dicts", Json.arr (trees.map dictJson).toArray),
+        ("geo", Json.arr (trees.map (fun t => toJson (PosDict.geo t))).toArray)])
     | _, _, _ => badOp
   | some "posdict" =>
     match (getObj? j "tree").bind parseTree with
